@@ -138,6 +138,13 @@ def run(prog, tier, extra=None):
                             tv.loc(path[-1]), {"path": describe_path(tv, path)}))
         else:
             res.sample({"rule": R2, "comparison": ["%s: total_out %s total_in" % (tv.loc(c["bb"]), c["op"]) for c in cmps], "states": ex.states, "verdict": "must-pass holds"})
+    # supply is also inflated by an output spent twice inside one transaction or block, and by rebroadcast fees booked on the
+    # wrong arm: decided by the C01 / C13 rules, cross-listed here
+    from ._include import include
+    include(res, prog, tier, extra, "c01", ["C01.dup-scan", "C01.scan-exemptions"],
+            "an input consumed twice inside one transaction or block pays out more than was consumed")
+    include(res, prog, tier, extra, "c13", ["C13.handled"],
+            "every expiring output is either rebroadcast (fee booked) or its own amount is booked to the graveyard: nothing else conserves supply")
     res.explanation = (
         "Decides two necessary clauses of the second sentence of C02: the totals that the inflation test compares cannot wrap around (a wrapped output sum makes "
         "total_out <= total_in true for an inflating transaction), and the test exists and gates every non-privileged accepting path of Transaction::validate. "
